@@ -324,6 +324,9 @@ func (g *gen) field(fieldName string, fieldType types.Type) (string, error) {
 			types.Uintptr, types.UntypedInt:
 			return fmt.Sprintf("uint64(%s)", fieldName), nil
 		case types.Uint64:
+			if !types.Identical(fieldType, typ) {
+				return fmt.Sprintf("uint64(%s)", fieldName), nil
+			}
 			return fmt.Sprintf("%s", fieldName), nil
 		case types.Float32:
 			return fmt.Sprintf("uint64(%s.Float32bits(float32(%s)+0))", g.mathPkg(), fieldName), nil
